@@ -4,19 +4,20 @@ package main
 // g08.go spell them (receiver, parameters, results, then := / var declarations, function-literal parameters, fields of
 // local types).  See g08_norm.go.
 var g08Ref = map[string][]string{
-	"ReadHeader":             {"r", "buf", "_", "err", "h", "err", "h", "err"},
-	"readV1Header":           {"buf", "r", "b", "err", "idx", "_", "err", "_", "err", "b", "err"},
-	"readUntilCRLF":          {"buf", "r", "idx", "c", "err"},
-	"parseV1Header":          {"buf", "src", "dest", "done", "isTCP6", "err", "pos", "buf", "ip", "ip", "port", "err", "port", "err"},
-	"parsePort":              {"buf", "port", "err"},
-	"readV2Header":           {"buf", "r", "_", "err", "length", "tr", "_", "err", "offset", "h", "src", "dest", "src", "dest"},
-	"Conn.RemoteAddr":        {"c", "err"},
-	"Conn.LocalAddr":         {"c", "err"},
-	"Conn.Read":              {"c", "b", "n", "err", "err"},
-	"Conn.Write":             {"c", "b", "n", "err", "err"},
-	"Conn.ReadFrom":          {"c", "r", "n", "err", "err"},
-	"Conn.WriteTo":           {"c", "w", "n", "err", "err"},
-	"Conn.readHeaderContext": {"c", "ctx", "t0", "d", "ok", "cancel", "header", "err", "resCh", "r", "r"},
-	"Listener.Listen":        {"l", "ll", "err", "rl", "wl"},
-	"Listener.Accept":        {"l", "conn", "err"},
+	"ReadHeader":                 {"r", "buf", "_", "err", "h", "err", "h", "err"},
+	"readV1Header":               {"buf", "r", "b", "err", "idx", "_", "err", "_", "err", "b", "err"},
+	"readUntilCRLF":              {"buf", "r", "idx", "c", "err"},
+	"parseV1Header":              {"buf", "src", "dest", "done", "isTCP6", "err", "pos", "buf", "ip", "ip", "port", "err", "port", "err"},
+	"parsePort":                  {"buf", "port", "err"},
+	"readV2Header":               {"buf", "r", "_", "err", "length", "tr", "_", "err", "offset", "h", "src", "dest", "src", "dest"},
+	"Conn.RemoteAddr":            {"c", "err"},
+	"Conn.LocalAddr":             {"c", "err"},
+	"Conn.Read":                  {"c", "b", "n", "err", "err"},
+	"Conn.Write":                 {"c", "b", "n", "err", "err"},
+	"Conn.ReadFrom":              {"c", "r", "n", "err", "err"},
+	"Conn.WriteTo":               {"c", "w", "n", "err", "err"},
+	"Conn.readHeaderContext":     {"c", "ctx", "t0", "d", "ok", "cancel", "header", "err", "resCh", "r", "r"},
+	"proxyproto.Listener.Accept": {"l", "c", "err", "pc"},
+	"Listener.Listen":            {"l", "ll", "err", "rl", "wl"},
+	"Listener.Accept":            {"l", "conn", "err"},
 }
